@@ -114,7 +114,19 @@ def _variants(rng, base, k):
         elif r < 0.74 and s.get("gw"):
             s["gw"] = dict(s["gw"], values=[round(v + rng.choice([0.3, 0.7]), 2) for v in s["gw"]["values"]])
         elif r < 0.82:
-            s["irr"] = {"method": rng.choice([0, 1, 4]), "kwargs": {}, "schedule": None}
+            if rng.random() < 0.5:
+                s["irr"] = {"method": rng.choice([0, 1, 4]), "kwargs": {}, "schedule": None}
+            else:
+                # same optional settings, another strategy - or the same strategy with one optional setting changed
+                kw = dict(s["irr"].get("kwargs") or {})
+                if rng.random() < 0.5 or s["irr"]["method"] in (0, 3):
+                    s["irr"] = {"method": rng.choice([m for m in (1, 2, 4, 5) if m != s["irr"]["method"]]), "kwargs": kw, "schedule": None}
+                    if s["irr"]["method"] == 1:
+                        s["irr"]["kwargs"].setdefault("SMT", [60] * 4)
+                else:
+                    key = rng.choice(["WetSurf", "AppEff", "MaxIrr"])
+                    kw[key] = rng.choice({"WetSurf": [20, 50, 80], "AppEff": [60, 75, 90], "MaxIrr": [10, 30, 60]}[key])
+                    s["irr"] = dict(s["irr"], kwargs=kw)
         elif r < 0.90:
             iw = s["iwc"]
             if iw["wc_type"] == "Prop":
@@ -171,8 +183,18 @@ def _noise(rng, specs):
     if r < 0.4:
         s = rng.choice(specs)
         Soil(s["soil"]["type"]) if s["soil"]["type"] != "custom" else Soil("Loam")
+        Soil(rng.choice(["Clay", "Sand", "Paddy", "SandyLoam"]), dz=list(rng.choice(SAME_LEN_DZ)))
         Crop(s["crop"]["name"], planting_date="06/01")
-        GroundWater(); InitialWaterContent(); FieldMngt(); IrrigationManagement(irrigation_method=0)
+        Crop(s["crop"]["name"], planting_date="03/01", **{rng.choice(["CCx", "WP", "Zmax"]): rng.choice([0.7, 0.9])})
+        GroundWater(); InitialWaterContent(); FieldMngt()
+        GroundWater(water_table="Y", dates=["20000101"], values=[rng.choice([1.0, 2.5])])
+        InitialWaterContent(wc_type="Pct", value=[rng.choice([20, 60])])
+        FieldMngt(mulches=True, bunds=True, z_bund=0.1, mulch_pct=rng.choice([30, 80]))
+        # every irrigation strategy, with and without the optional settings
+        for m in range(6):
+            IrrigationManagement(irrigation_method=m)
+            IrrigationManagement(irrigation_method=m, WetSurf=rng.choice([20, 60]), AppEff=rng.choice([60, 80]), MaxIrr=rng.choice([10, 40]),
+                                 SMT=[50] * 4, IrrInterval=5, NetIrrSMT=60, depth=3)
         return "construct"
     if r < 0.55:
         CO2()
